@@ -40,12 +40,16 @@ structure EvC where
   tid : Tid
   sites : List Site
   timeout : Bool
+  /-- the entry is a pure OBSERVATION of a shared object (alternative `skip`): when the thread's next modelled action is not among the
+      alternatives, the entry has no step of its own and is passed over -/
+  optional : Bool := false
 
 def parseEv (j : J) : Except String EvC := do
   match ← j.asArr with
   | [t, s, o] =>
     let names := (← s.asStr).splitOn "|"
-    pure { tid := ← t.asNat, sites := ← names.mapM parseSite, timeout := (← o.asNat) ≠ 0 }
+    let opt := names.contains "skip"
+    pure { tid := ← t.asNat, sites := ← (names.filter (· ≠ "skip")).mapM parseSite, timeout := (← o.asNat) ≠ 0, optional := opt }
   | _ => throw "trace entry must be [tid, site|site.., timeout]"
 
 /-- model actions without an event of their own (they read state that only changes under a lock the thread holds): taken
@@ -65,7 +69,7 @@ def replayC (s : State) (n : Nat) : List EvC → Except (Nat × State) State
     match siteOf s1 e.tid with
     | none => .error (n, s1)
     | some x =>
-      if !(e.sites.contains x) then .error (n, s1)
+      if !(e.sites.contains x) then (if e.optional then replayC s (n + 1) es else .error (n, s1))
       else match (if e.timeout then stepT s1 e.tid else step s1 e.tid) with
         | none => .error (n, s1)
         | some s' => replayC s' (n + 1) es
